@@ -86,6 +86,11 @@ SAMPLES = {
     "GetStatusesIq": ("protocol_profiles.protocolentities.iq_statuses_get.GetStatusesIqProtocolEntity", "out", lambda C: C([J, J2]), ()),
     "ResultStatusesIq": ("protocol_profiles.protocolentities.iq_statuses_result.ResultStatusesIqProtocolEntity", "in",
                          lambda C: C("id1", "s.whatsapp.net", {J: (b"busy", "1400000000"), J2: (b"at work", "1400000005")}), ()),
+    "CleanIq": ("protocol_ib.protocolentities.clean_iq.CleanIqProtocolEntity", "out", lambda C: C("groups", "s.whatsapp.net"), ()),
+    "UnregisterIq": ("protocol_profiles.protocolentities.iq_unregister.UnregisterIqProtocolEntity", "out", lambda C: C(), ()),
+    "SetStatusIq": ("protocol_profiles.protocolentities.iq_status_set.SetStatusIqProtocolEntity", "out", lambda C: C(b"busy now"), ()),
+    "RequestUploadIq": ("protocol_media.protocolentities.iq_requestupload.RequestUploadIqProtocolEntity", "out", lambda C: C("image", "b64hashvalue", "12345"), ()),
+    "TextMessage": ("protocol_messages.protocolentities.message_text.TextMessageProtocolEntity", "out", lambda C: C("hello there", to=J), ()),
     "SetKeysIq": ("axolotl.protocolentities.iq_keys_set.SetKeysIqProtocolEntity", "out",
                   lambda C: C(b"\x01" * 32, (b"\x00\x00\x01", b"\x02" * 32, b"\x03" * 64), {b"\x00\x00\x05": b"\x04" * 32, b"\x00\x00\x06": b"\x05" * 32}, 5, b"\x00\x01\x02\x03"), ()),
 }
@@ -136,7 +141,7 @@ class _SymArgs(object):
         if isinstance(x, bool) or x is None:
             return x
         if isinstance(x, str):
-            if x in ("msg", "pkmsg", "skmsg", "text", "media", "add", "remove", "promote", "demote", "image", "new", "w:gp2", "identity"):
+            if x in ("msg", "pkmsg", "skmsg", "text", "media", "add", "remove", "promote", "demote", "image", "new", "w:gp2", "identity", "hello there", "groups"):
                 return x
             if SC._is_num(x):
                 return H.numstr(self.ctx, n, 0)
